@@ -358,7 +358,7 @@ class Extract:
                 g = Rat.atom("?" + short(pretty(s["c"]), 60))
             self.block_of(s["th"], loops, guards + [g])
             if s["el"] is not None:
-                self.block_of(s["el"], loops, guards + [e1.fn_atom("not", g)])
+                self.block_of(s["el"], loops, guards + [e1.negate_cond(g)])
             return
         if k == "blk":
             self.block(s["b"], loops, guards)
